@@ -28,11 +28,8 @@ def rtyStr : RTy → String
       ",".intercalate (args.map fun a => a.1 ++ ":" ++ tyStr a.2) ++ ")" ++
       (match ret with | some r => "->" ++ tyStr r | none => "")
 
-/-- `str::lines` on a doc string: split at `\n`, drop one trailing empty piece, strip one trailing `\r` -/
-def strLines (s : String) : List String :=
-  let pieces := s.splitOn "\n"
-  let pieces := if pieces.getLast? == some "" then pieces.dropLast else pieces
-  pieces.map fun l => if l.endsWith "\r" then (l.dropEnd 1).toString else l
+/-- `str::split('\n')` on a doc string -/
+def strLines (s : String) : List String := s.splitOn "\n"
 
 def docLines (doc : Option String) : List String :=
   match doc with | some d => strLines d | none => []
@@ -144,15 +141,8 @@ def xvalItem (x : XValue) : Sexp :=
   mk "xaccessor" [visS x.vis, .str (fmtExternGetter x.name),
     .str (match x.ty with | some t => tyStr t | none => "?unresolved"), .int x.addr]
 
-/-- `Path::set_extension("rs")` on the last component -/
-def setExtRs (last : String) : String :=
-  -- file_stem: everything before the last '.', unless the only '.' is the first character
-  let cs := last.toList
-  match cs.reverse.dropWhile (· != '.') with
-  | [] => last ++ ".rs"                 -- no dot
-  | _ :: revStem =>
-    if revStem.isEmpty then last ++ ".rs"   -- ".hidden": the whole name is the stem
-    else String.ofList revStem.reverse ++ ".rs"
+/-- `path.as_mut_os_string().push(".rs")` on the last component -/
+def setExtRs (last : String) : String := last ++ ".rs"
 
 def relFile (key : Path) : String :=
   match key.getLast? with
